@@ -175,4 +175,262 @@ Section Heap.
     pose proof (remove_one_perm m (x :: l) Hm) as Hq.
     apply Permutation_cons_inv with (a := m). rewrite <- Hq. exact Hp.
   Qed.
+
+  (** *** invariants of the two heapify loops (single thread: thread 0 owns the item being inserted) *)
+  Definition UpInv (i n : nat) (h : nat -> option item) (tg : nat -> MsPq.tag) : Prop :=
+    Occ n h /\
+    (forall k, h k = None -> tg k = TEmpty) /\
+    (forall k, h k <> None -> k <> i -> tg k = TAvail) /\
+    (i <> 0 -> h i <> None /\ tg i = TOwner 0) /\
+    (forall k, 2 <= k -> k <> i -> Ordk h k) /\
+    (2 <= i -> forall c x y, 2 <= c -> Nat.div2 c = i -> h c = Some x -> h (Nat.div2 i) = Some y -> (prio x <= prio y)%Z).
+
+  Definition DownInv (p n : nat) (h : nat -> option item) (tg : nat -> MsPq.tag) : Prop :=
+    Occ n h /\ Tags h tg /\ 1 <= p /\ h p <> None /\
+    (forall k, 2 <= k -> Nat.div2 k <> p -> Ordk h k) /\
+    (2 <= p -> forall c x y, 2 <= c -> Nat.div2 c = p -> h c = Some x -> h (Nat.div2 p) = Some y -> (prio x <= prio y)%Z).
+
+  Lemma Occ_ext n h h' : (forall k, h' k = h k) -> Occ n h -> Occ n h'.
+  Proof. intros E HO i. rewrite E. apply HO. Qed.
+  Lemma Ordk_ext h h' k : (forall j, h' j = h j) -> Ordk h k -> Ordk h' k.
+  Proof. intros E H x Hx. rewrite E in Hx. destruct (H x Hx) as (y & Hy & Hle). exists y. rewrite E. auto. Qed.
+
+  Lemma UpInv0_Good n h tg : n <= cap -> UpInv 0 n h tg -> Good n h tg.
+  Proof.
+    intros Hn (HO & HE & HA & _ & Hord & _). split; [exact HO|]. split; [split; [exact HE|]|].
+    - intros i Hi. apply HA; [exact Hi|]. intros ->. apply Hi. apply (Occ_zero n h Hn HO).
+    - intros k Hk. apply Hord; lia.
+  Qed.
+  Lemma Good_UpInv0 n h tg : Good n h tg -> UpInv 0 n h tg.
+  Proof.
+    intros (HO & [HE HA] & Hord). split; [exact HO|]. split; [exact HE|]. split; [intros k Hk _; apply HA; exact Hk|].
+    split; [congruence|]. split; [intros k Hk _; apply Hord; exact Hk|lia].
+  Qed.
+
+  (** sift-up: the item at [i] is larger than its parent and moves up *)
+  Lemma UpInv_swap i n h tg a b :
+    n <= cap -> 2 <= i -> UpInv i n h tg -> h i = Some a -> h (Nat.div2 i) = Some b -> (prio a > prio b)%Z ->
+    UpInv (Nat.div2 i) n (upd (upd h i (h (Nat.div2 i))) (Nat.div2 i) (h i))
+                         (upd (upd tg i (tg (Nat.div2 i))) (Nat.div2 i) (tg i)).
+  Proof.
+    intros Hn Hi (HO & HE & HA & HI & Hord & Hgr) Ha Hb Hgt.
+    set (p := Nat.div2 i) in *. assert (Hpi : p < i) by (apply div2_lt; lia).
+    assert (Hp1 : 1 <= p). { destruct i as [|[|i]]; try lia. subst p. cbn [Nat.div2]. lia. }
+    destruct (HI ltac:(lia)) as [_ Htgi].
+    set (h' := upd (upd h i (h p)) p (h i)). set (tg' := upd (upd tg i (tg p)) p (tg i)).
+    assert (E1 : h' p = Some a) by (unfold h'; rewrite upd_same; exact Ha).
+    assert (E2 : h' i = Some b) by (unfold h'; rewrite upd_other by lia; rewrite upd_same; exact Hb).
+    assert (E3 : forall k, k <> i -> k <> p -> h' k = h k) by (intros k K1 K2; unfold h'; rewrite !upd_other by assumption; reflexivity).
+    assert (T1 : tg' p = TOwner 0) by (unfold tg'; rewrite upd_same; exact Htgi).
+    assert (T2 : tg' i = TAvail) by (unfold tg'; rewrite upd_other by lia; rewrite upd_same; apply HA; [rewrite Hb; discriminate|lia]).
+    assert (T3 : forall k, k <> i -> k <> p -> tg' k = tg k) by (intros k K1 K2; unfold tg'; rewrite !upd_other by assumption; reflexivity).
+    assert (Hnn : forall k, h' k <> None <-> h k <> None).
+    { intros k. destruct (Nat.eq_dec k i) as [->|K1]; [rewrite E2, Ha; split; discriminate|].
+      destruct (Nat.eq_dec k p) as [->|K2]; [rewrite E1, Hb; split; discriminate|]. rewrite E3 by assumption. tauto. }
+    split; [|split; [|split; [|split; [|split]]]].
+    - intros k. rewrite Hnn. apply HO.
+    - intros k Hk. destruct (Nat.eq_dec k i) as [->|K1]; [congruence|]. destruct (Nat.eq_dec k p) as [->|K2]; [congruence|].
+      rewrite T3 by assumption. apply HE. rewrite <- E3 by assumption. exact Hk.
+    - intros k Hk Hkp. destruct (Nat.eq_dec k i) as [->|K1]; [exact T2|]. rewrite T3 by assumption.
+      apply HA; [apply Hnn; exact Hk|exact K1].
+    - intros _. split; [rewrite E1; discriminate|exact T1].
+    - intros k Hk Hkp x Hx. destruct (Nat.eq_dec k i) as [->|K1].
+      + rewrite E2 in Hx. inversion Hx; subst x. exists a. fold p. split; [exact E1|lia].
+      + rewrite E3 in Hx by assumption. destruct (Hord k Hk K1 x Hx) as (y & Hy & Hle).
+        destruct (Nat.eq_dec (Nat.div2 k) p) as [Ep|Np].
+        * rewrite Ep in Hy |- *. exists a. split; [exact E1|]. rewrite Hb in Hy. inversion Hy; subst y. lia.
+        * destruct (Nat.eq_dec (Nat.div2 k) i) as [Ei|Ni].
+          -- rewrite Ei. exists b. split; [exact E2|]. apply (Hgr Hi k x b Hk Ei Hx Hb).
+          -- exists y. rewrite E3 by assumption. auto.
+    - intros Hp2 c x y Hc Hdc Hx Hy.
+      assert (Hdp : Nat.div2 p < p) by (apply div2_lt; lia).
+      rewrite E3 in Hy by lia.
+      destruct (Hord p Hp2 ltac:(lia) b Hb) as (y' & Hy' & Hle). rewrite Hy in Hy'. inversion Hy'; subst y'.
+      destruct (Nat.eq_dec c i) as [->|K1]; [rewrite E2 in Hx; inversion Hx; subst x; exact Hle|].
+      assert (c <> p) by (intros ->; pose proof (div2_lt p ltac:(lia)); lia).
+      rewrite E3 in Hx by assumption. destruct (Hord c Hc K1 x Hx) as (y2 & Hy2 & Hle2). rewrite Hdc, Hb in Hy2.
+      inversion Hy2; subst y2. lia.
+  Qed.
+
+  (** sift-up stops: the item is not larger than its parent; its tag becomes Available *)
+  Lemma UpInv_stop i n h tg a b :
+    2 <= i -> UpInv i n h tg -> h i = Some a -> h (Nat.div2 i) = Some b -> (prio a <= prio b)%Z ->
+    UpInv 0 n (upd h i (h i)) (upd tg i TAvail).
+  Proof.
+    intros Hi (HO & HE & HA & HI & Hord & Hgr) Ha Hb Hle.
+    assert (E : forall k, upd h i (h i) k = h k) by (intros k; unfold upd; destruct (Nat.eqb_spec k i); [subst; reflexivity|reflexivity]).
+    split; [apply (Occ_ext n h); [exact E|exact HO]|]. split; [|split; [|split; [congruence|split; [|lia]]]].
+    - intros k Hk. rewrite E in Hk. destruct (Nat.eq_dec k i) as [->|K]; [congruence|]. rewrite upd_other by exact K. apply HE. exact Hk.
+    - intros k Hk _. rewrite E in Hk. destruct (Nat.eq_dec k i) as [->|K]; [apply upd_same|]. rewrite upd_other by exact K. apply HA; assumption.
+    - intros k Hk _. apply (Ordk_ext h); [exact E|]. destruct (Nat.eq_dec k i) as [->|K]; [|apply Hord; assumption].
+      intros x Hx. rewrite Ha in Hx. inversion Hx; subst x. exists b. auto.
+  Qed.
+
+  (** the item reached the top *)
+  Lemma UpInv_top n h tg : UpInv 1 n h tg -> UpInv 0 n (upd h 1 (h 1)) (upd tg 1 TAvail).
+  Proof.
+    intros (HO & HE & HA & HI & Hord & Hgr). destruct (HI ltac:(lia)) as [H1 _].
+    assert (E : forall k, upd h 1 (h 1) k = h k) by (intros k; unfold upd; destruct (Nat.eqb_spec k 1); [subst; reflexivity|reflexivity]).
+    split; [apply (Occ_ext n h); [exact E|exact HO]|]. split; [|split; [|split; [congruence|split; [|lia]]]].
+    - intros k Hk. rewrite E in Hk. destruct (Nat.eq_dec k 1) as [->|K]; [congruence|]. rewrite upd_other by exact K. apply HE. exact Hk.
+    - intros k Hk _. rewrite E in Hk. destruct (Nat.eq_dec k 1) as [->|K]; [apply upd_same|]. rewrite upd_other by exact K. apply HA; assumption.
+    - intros k Hk _. apply (Ordk_ext h); [exact E|]. apply Hord; lia.
+  Qed.
+
+  (** push: the new item is stored in the next slot *)
+  Lemma UpInv_store n h tg x :
+    S n <= cap -> Good n h tg ->
+    h (slot (S n)) = None /\
+    UpInv (slot (S n)) (S n) (upd h (slot (S n)) (Some x)) (upd tg (slot (S n)) (TOwner 0)).
+  Proof.
+    intros Hn (HO & [HE HA] & Hord). set (i := slot (S n)).
+    assert (Hfree : h i = None) by (apply (Occ_free n h (S n)); [lia|exact HO|lia]).
+    assert (Ri : 1 <= i <= cap) by (apply (slot_range cap OK); lia).
+    split; [exact Hfree|].
+    split; [|split; [|split; [|split; [|split]]]].
+    - intros k. unfold upd. destruct (Nat.eqb_spec k i) as [->|K].
+      + split; [intros _; exists (S n); split; [lia|reflexivity]|discriminate].
+      + rewrite (HO k). split; intros (j & Hj & E); exists j; (split; [|exact E]); [lia|].
+        destruct (Nat.eq_dec j (S n)) as [->|]; [congruence|lia].
+    - intros k. unfold upd. destruct (Nat.eqb_spec k i); [discriminate|apply HE].
+    - intros k Hk Hki. rewrite upd_other in Hk |- * by exact Hki. apply HA. exact Hk.
+    - intros _. rewrite !upd_same. split; [discriminate|reflexivity].
+    - intros k Hk Hki y Hy. rewrite upd_other in Hy by exact Hki. destruct (Hord k Hk y Hy) as (z & Hz & Hle).
+      exists z. split; [|exact Hle]. rewrite upd_other; [exact Hz|]. intros E.
+      assert (h k = None) by (apply (no_child_of_later n h (S n) k); try lia; [exact HO|exact E]). congruence.
+    - intros Hi2 c y z Hc Hdc Hy Hz. exfalso. assert (c <> i) by (intros ->; pose proof (div2_lt i ltac:(lia)); lia).
+      rewrite upd_other in Hy by assumption.
+      assert (h c = None) by (apply (no_child_of_later n h (S n) c); try lia; [exact HO|exact Hdc]). congruence.
+  Qed.
+
+  (** pop: the bottom cell is emptied *)
+  Lemma Good_take n h tg :
+    S n <= cap -> Good (S n) h tg -> Good n (upd h (slot (S n)) None) (upd tg (slot (S n)) TEmpty).
+  Proof.
+    intros Hn (HO & [HE HA] & Hord). set (b := slot (S n)).
+    assert (HO' : Occ n (upd h b None)).
+    { intros k. unfold upd. destruct (Nat.eqb_spec k b) as [->|K].
+      - split; [congruence|]. intros (j & Hj & E). apply (slot_inj cap OK) in E; lia.
+      - rewrite (HO k). split; intros (j & Hj & E); exists j; (split; [|exact E]); [|lia].
+        destruct (Nat.eq_dec j (S n)) as [->|]; [congruence|lia]. }
+    split; [exact HO'|]. split; [split|].
+    - intros k. unfold upd. destruct (Nat.eqb_spec k b); [reflexivity|apply HE].
+    - intros k. unfold upd. destruct (Nat.eqb_spec k b); [congruence|apply HA].
+    - intros k Hk y Hy. assert (Kb : k <> b) by (intros ->; rewrite upd_same in Hy; discriminate).
+      rewrite upd_other in Hy by exact Kb. destruct (Hord k Hk y Hy) as (z & Hz & Hle). exists z. split; [|exact Hle].
+      rewrite upd_other; [exact Hz|]. intros E.
+      assert (upd h b None k = None) by (apply (no_child_of_later n _ (S n) k); try lia; [exact HO'|exact E]).
+      rewrite upd_other in H by exact Kb. congruence.
+  Qed.
+
+  (** pop: the bottom item replaces the top item *)
+  Lemma DownInv_top n h tg xb :
+    1 <= n <= cap -> Good n h tg -> DownInv 1 n (upd h 1 (Some xb)) (upd tg 1 TAvail).
+  Proof.
+    intros Hn (HO & [HE HA] & Hord).
+    assert (H1 : h 1 <> None) by (rewrite <- slot_1; apply (Occ_slot n h 1 HO); lia).
+    split; [|split; [split|split; [lia|split; [rewrite upd_same; discriminate|split; [|lia]]]]].
+    - intros k. unfold upd. destruct (Nat.eqb_spec k 1) as [->|K]; [|apply HO].
+      split; [intros _; exists 1; split; [lia|reflexivity]|discriminate].
+    - intros k. unfold upd. destruct (Nat.eqb_spec k 1); [discriminate|apply HE].
+    - intros k. unfold upd. destruct (Nat.eqb_spec k 1); [reflexivity|apply HA].
+    - intros k Hk Hd y Hy. rewrite upd_other in Hy by lia. destruct (Hord k Hk y Hy) as (z & Hz & Hle).
+      exists z. rewrite upd_other by exact Hd. auto.
+  Qed.
+
+  Lemma DownInv_children p n h tg k : n <= cap -> DownInv p n h tg -> 2 <= k -> Nat.div2 k = p -> k = 2 * p \/ k = S (2 * p).
+  Proof. intros Hn (_ & _ & Hp & _) Hk Hd. apply div2_children; assumption. Qed.
+
+  (** sift-down stops: no child is larger *)
+  Lemma DownInv_stop p n h tg :
+    DownInv p n h tg ->
+    (forall k x y, 2 <= k -> Nat.div2 k = p -> h k = Some x -> h p = Some y -> (prio x <= prio y)%Z) ->
+    Good n h tg.
+  Proof.
+    intros (HO & HT & Hp & Hpv & Hord & Hgr) Hch. split; [exact HO|]. split; [exact HT|].
+    intros k Hk. destruct (Nat.eq_dec (Nat.div2 k) p) as [E|N]; [|apply Hord; assumption].
+    intros x Hx. destruct (h p) as [y|] eqn:Ey; [|congruence]. exists y. rewrite E. split; [exact Ey|]. eapply Hch; eauto.
+  Qed.
+
+  Lemma DownInv_leaf p n h tg : n <= cap -> DownInv p n h tg -> h (2 * p) = None -> Good n h tg.
+  Proof.
+    intros Hn HD Hl. pose proof HD as (HO & _ & Hp & _). apply (DownInv_stop p n h tg HD).
+    intros k x y Hk Hd Hx Hy. exfalso. destruct (div2_children k p Hp Hd) as [->|->]; [congruence|].
+    apply (left_before_right n h p Hn HO Hp); [rewrite Hx; discriminate|exact Hl].
+  Qed.
+
+  Lemma DownInv_nochild p n h tg : n <= cap -> DownInv p n h tg -> cap < 2 * p -> Good n h tg.
+  Proof.
+    intros Hn HD Hc. pose proof HD as (HO & _ & Hp & _). apply (DownInv_stop p n h tg HD).
+    intros k x y Hk Hd Hx Hy. exfalso. assert (h k <> None) by (rewrite Hx; discriminate).
+    pose proof (Occ_range n h k Hn HO H). destruct (div2_children k p Hp Hd); lia.
+  Qed.
+
+  (** sift-down: the larger child [ch] is larger than the parent and moves up *)
+  Lemma DownInv_swap p ch n h tg m v :
+    n <= cap -> DownInv p n h tg -> (ch = 2 * p \/ ch = S (2 * p)) -> h ch = Some m -> h p = Some v -> (prio m > prio v)%Z ->
+    (forall k x, 2 <= k -> Nat.div2 k = p -> h k = Some x -> (prio x <= prio m)%Z) ->
+    DownInv ch n (upd (upd h p (h ch)) ch (h p)) (upd (upd tg p (tg ch)) ch (tg p)).
+  Proof.
+    intros Hn (HO & [HE HA] & Hp & Hpv & Hord & Hgr) Hch Hm Hv Hgt Hmax.
+    assert (Hdch : Nat.div2 ch = p) by (destruct Hch as [->| ->]; [apply div2_double|apply div2_succ_double]).
+    assert (Hpc : p < ch) by (destruct Hch; lia).
+    set (h' := upd (upd h p (h ch)) ch (h p)). set (tg' := upd (upd tg p (tg ch)) ch (tg p)).
+    assert (E1 : h' ch = Some v) by (unfold h'; rewrite upd_same; exact Hv).
+    assert (E2 : h' p = Some m) by (unfold h'; rewrite upd_other by lia; rewrite upd_same; exact Hm).
+    assert (E3 : forall k, k <> p -> k <> ch -> h' k = h k) by (intros k K1 K2; unfold h'; rewrite !upd_other by assumption; reflexivity).
+    assert (Tp : tg p = TAvail) by (apply HA; rewrite Hv; discriminate).
+    assert (Tc : tg ch = TAvail) by (apply HA; rewrite Hm; discriminate).
+    assert (Hnn : forall k, h' k <> None <-> h k <> None).
+    { intros k. destruct (Nat.eq_dec k p) as [->|K1]; [rewrite E2, Hv; split; discriminate|].
+      destruct (Nat.eq_dec k ch) as [->|K2]; [rewrite E1, Hm; split; discriminate|]. rewrite E3 by assumption. tauto. }
+    assert (Htg : forall k, tg' k = tg k).
+    { intros k. unfold tg', upd. destruct (Nat.eqb_spec k ch) as [->|]; [congruence|]. destruct (Nat.eqb_spec k p) as [->|]; [congruence|reflexivity]. }
+    split; [|split; [split|split; [lia|split; [rewrite E1; discriminate|split]]]].
+    - intros k. rewrite Hnn. apply HO.
+    - intros k Hk. rewrite Htg. apply HE. destruct (h k) eqn:E; [|reflexivity]. exfalso.
+      assert (h' k <> None) by (apply Hnn; rewrite E; discriminate). congruence.
+    - intros k Hk. rewrite Htg. apply HA. apply Hnn. exact Hk.
+    - intros k Hk Hd x Hx. destruct (Nat.eq_dec k p) as [->|K1].
+      + rewrite E2 in Hx. inversion Hx; subst x.
+        assert (Hpp : h (Nat.div2 p) <> None) by (apply (parent_occupied n h p Hn HO Hk); rewrite Hv; discriminate).
+        destruct (h (Nat.div2 p)) as [y|] eqn:Ey; [|congruence]. exists y.
+        pose proof (div2_lt p ltac:(lia)). rewrite E3 by lia. split; [exact Ey|]. apply (Hgr Hk ch m y ltac:(lia) Hdch Hm Ey).
+      + destruct (Nat.eq_dec k ch) as [->|K2].
+        * rewrite E1 in Hx. inversion Hx; subst x. exists m. rewrite Hdch. split; [exact E2|lia].
+        * rewrite E3 in Hx by assumption. destruct (Nat.eq_dec (Nat.div2 k) p) as [Ep|Np].
+          -- exists m. rewrite Ep. split; [exact E2|]. apply (Hmax k x Hk Ep Hx).
+          -- destruct (Hord k Hk Np x Hx) as (y & Hy & Hle). exists y. rewrite E3 by assumption. auto.
+    - intros Hc2 c x y Hc Hdc Hx Hy. rewrite Hdch, E2 in Hy. inversion Hy; subst y.
+      assert (ch < c) by (pose proof (div2_lt c ltac:(lia)); lia).
+      rewrite E3 in Hx by lia. destruct (Hord c Hc ltac:(lia) x Hx) as (y & Hy' & Hle). rewrite Hdc, Hm in Hy'.
+      inversion Hy'; subst y. exact Hle.
+  Qed.
+
+  (** *** the multiset of priorities *)
+  Lemma prios_ext h h' : (forall k, h' k = h k) -> prios h' = prios h.
+  Proof. intros E. unfold prios. rewrite (items_ext h h' E). reflexivity. Qed.
+  Lemma prios_swap h i p :
+    1 <= i <= cap -> 1 <= p <= cap -> i <> p -> Permutation (prios (upd (upd h i (h p)) p (h i))) (prios h).
+  Proof. intros. unfold prios. apply Permutation_map. apply items_swap; assumption. Qed.
+  Lemma prios_store h i x : 1 <= i <= cap -> h i = None -> Permutation (prios (upd h i (Some x))) (prio x :: prios h).
+  Proof. intros. unfold prios. change (prio x :: map prio (items h)) with (map prio (x :: items h)). apply Permutation_map. apply items_store; assumption. Qed.
+  Lemma prios_take h i x : 1 <= i <= cap -> h i = Some x -> Permutation (prios h) (prio x :: prios (upd h i None)).
+  Proof. intros. unfold prios. change (prio x :: map prio (items (upd h i None))) with (map prio (x :: items (upd h i None))). apply Permutation_map. apply items_take; assumption. Qed.
+  Lemma prios_replace h i x z :
+    1 <= i <= cap -> h i = Some z -> Permutation (prio z :: prios (upd h i (Some x))) (prio x :: prios h).
+  Proof.
+    intros Hi Hz. unfold prios.
+    change (prio z :: map prio (items (upd h i (Some x)))) with (map prio (z :: items (upd h i (Some x)))).
+    change (prio x :: map prio (items h)) with (map prio (x :: items h)). apply Permutation_map.
+    apply (Permutation_count_occ item_eq_dec). intros y. pose proof (cnt_items_upd h i (Some x) y Hi) as E. rewrite Hz in E.
+    cbn [oc count_occ] in *. destruct (item_eq_dec z y); destruct (item_eq_dec x y); lia.
+  Qed.
+
+  Lemma in_prios h y : In y (prios h) -> exists k x, h k = Some x /\ prio x = y.
+  Proof.
+    unfold prios, items. intros Hin. apply in_map_iff in Hin. destruct Hin as (x & <- & Hin).
+    apply in_flat_map in Hin. destruct Hin as (k & _ & Hk). exists k, x. split; [|reflexivity].
+    destruct (h k) as [z|]; cbn in Hk; [destruct Hk as [->|[]]; reflexivity|destruct Hk].
+  Qed.
 End Heap.
